@@ -18,6 +18,7 @@ type Env struct {
 	nq      *int
 	lookup  func(name string) (Val, bool) // extra resolver (locals)
 	noGhost bool                          // contract of a callee: the caller's ghost variables are not in scope
+	ghostSt *State                        // ghost variables are read from this state (old() only rewinds the heap)
 }
 
 type specErr struct{ msg string }
@@ -40,6 +41,9 @@ func (e *Env) with(vars map[string]Val) *Env {
 
 func (e *Env) inState(st *State) *Env {
 	n := *e
+	if n.ghostSt == nil {
+		n.ghostSt = e.st
+	}
 	n.st = st
 	return &n
 }
@@ -487,7 +491,11 @@ func (e *Env) ident(name string) Val {
 	if v, ok := e.vars[name]; ok {
 		return v
 	}
-	if v, ok := e.st.ghost[name]; ok && !e.noGhost {
+	gs := e.st
+	if e.ghostSt != nil {
+		gs = e.ghostSt
+	}
+	if v, ok := gs.ghost[name]; ok && !e.noGhost {
 		return v
 	}
 	if e.lookup != nil {
